@@ -760,6 +760,20 @@ func (t *Tracer) refine(fr *frame, cond ssa.Value, val bool, p *pstate) bool {
 			if t.isStateRead(x) {
 				return t.refineRead(fr, x, cv, eq, val, cond.Pos(), p)
 			}
+			// a test of Session.side: the path belongs to one side from here on
+			if f, base := LoadedField(x); f != nil && f.Name() == "side" && base != nil && t.M.isSessionVal(base) {
+				acc := int64(0)
+				if k, ok := t.M.Pkg.Members["sideAcceptor"].(*ssa.NamedConst); ok {
+					if v, isInt := ConstInt(k.Value); isInt {
+						acc = v
+					}
+				}
+				side := "initiator"
+				if (cv == acc) == eq {
+					side = "acceptor"
+				}
+				t.emit(p, fr, Event{Kind: "side", Name: side, Pos: cond.Pos()})
+			}
 		}
 		if bv, ok := ConstBool(y); ok {
 			return t.refine(fr, x, eq == bv, p)
